@@ -76,6 +76,32 @@ def main():
             e = traces[ti][line]
             ck.violation('%s: C call %s(k=%s,v=%s) -> %s with contents %s is not a step of the sorted map' % (
                 towners[ti], e['op'], e['k'], e['v'], e['res'], e['keys']), dict(towners[ti], kind='trace-rejected', op=e['op'], line=line))
+    # (3) multiunion side by side: the same operand lists (sizes on both sides of the switch to the radix sort, both
+    #     extremes, mixed signs) given to the C and to the Python multiunion
+    mplan = []
+    for fam in (['II', 'LL', 'UU', 'QF'] if quick else embed.INT_KEY_FAMILIES):
+        for impl in ('c', 'py'):
+            mplan.append(dict(fam=fam, impl=impl, seed=ck.seed * 100 + 7, totals=[0, 1, 7, 799, 801, 1300] if quick else [0, 1, 7, 100, 799, 800, 801, 1600, 5000],
+                              reps=2 if quick else 4, nkeys=2400))
+    by = {}
+    for job, res, err in jobs.run_jobs('harness.workers.multi_worker', mplan):
+        if err:
+            ck.violation('multiunion worker died %s %s: %s' % (job['fam'], job['impl'], err[-1500:]), dict(kind='crash', fam=job['fam'], impl=job['impl'], err=err[-3000:]))
+            continue
+        by[(job['fam'], job['impl'])] = res['records']
+    for fam in sorted({f for f, _ in by}):
+        rc, rp = by.get((fam, 'c')), by.get((fam, 'py'))
+        if rc is None or rp is None:
+            continue
+        ck.bump('multiunion_pairs', len(rc))
+        ck.add_traces(len(rc))
+        for a, b in zip(rc, rp):
+            if a['ops'] != b['ops']:
+                common.machinery_failure('paired multiunion runs diverged in their operands')
+            if (a['kind'], a['got'], a['len'], a['probe'], a['range']) != (b['kind'], b['got'], b['len'], b['probe'], b['range']):
+                ck.violation('%s: multiunion of %d elements in %d operands: C and Python differ (C %s %s..., Python %s %s...)' % (
+                    fam, a['total'], len(a['ops']), a['kind'], str(a['got'][:12]), b['kind'], str(b['got'][:12])),
+                    dict(kind='multiunion-pair-differs', fam=fam, total=a['total'], c=a['got'][:60], py=b['got'][:60]))
     ck.assumptions += ['excluded as the property says: byValue, message texts, the return value of update()',
                        'keys of one container mutually comparable']
     ck.finish(exhaustive=False)
